@@ -21,6 +21,9 @@ Muts == {<<"none", "p1", 1, "">>}
    \cup {<<"task", x[1], x[2], "">> : x \in {y \in ValidPos : Base.pipes[y[1]][y[2]].task # ""}}
    \cup {<<"pipe", x[1], x[2], "">> : x \in {y \in ValidPos : Base.pipes[y[1]][y[2]].task = ""}}
    \cup {<<"dep", x[1], x[2], w>> : x \in {y \in ValidPos : Base.pipes[y[1]][y[2]].deps # {}}, w \in {"unknown", "other"}}
+   \* an unknown name NEXT TO a valid one in the same depends_on list (written before or after it, the valid
+   \* one declared earlier or later: the harness renders every arrangement)
+   \cup {<<"depmix", x[1], x[2], "">> : x \in {y \in ValidPos : Base.pipes[y[1]][y[2]].deps # {}}}
    \cup {<<"dup", x[1], x[2], "">> : x \in {y \in ValidPos : y[2] > 1}}
    \cup {<<"watcher", "p1", 1, "">>}
    \* a stage without a name is called after its task (or pipeline): clashes through defaulted names
@@ -48,6 +51,7 @@ Apply(m) ==
   IN CASE k = "task" -> upd("task", "nosuch")
        [] k = "pipe" -> upd("pipe", "nosuch")
        [] k = "dep" -> upd("deps", {IF m[4] = "unknown" THEN "nosuch" ELSE OtherStage(p)})
+       [] k = "depmix" -> upd("deps", Base.pipes[p][i].deps \cup {"nosuch"})
        [] k = "dup" -> upd("name", Base.pipes[p][1].name)
        [] k = "watcher" -> [Base EXCEPT !.wtask = "nosuch"]
        [] k = "both" -> [Base EXCEPT !.pipes["p4"][1].pipe = "p4"]
